@@ -25,6 +25,14 @@ use crate::wire::StreamId;
 
 pub use channels::{ChannelEvent, Channels, ChannelsConfig};
 
+/// Re-exports of private worker items for the external verification harness.
+#[cfg(feature = "verif")]
+pub mod verif {
+    pub use super::upload_pack::pktline::{git_request, GitRequest};
+
+    pub use super::fetch::verif_cache_cobs as cache_cobs;
+}
+
 /// Worker pool configuration.
 pub struct Config {
     /// Number of worker threads.
